@@ -29,10 +29,13 @@ fn do_instr(start: usize, hay: &str, needle: &str) -> Result<i32, RuntimeError> 
     } else if needle.is_empty() {
         Ok(1)
     } else {
+        // positions are in characters, not bytes:
+        // a character above 127 takes two bytes in a Rust string
+        let hay: Vec<char> = hay.chars().collect();
+        let needle: Vec<char> = needle.chars().collect();
         let mut i: usize = start - 1;
         while i + needle.len() <= hay.len() {
-            let sub = hay.get(i..(i + needle.len())).unwrap();
-            if sub == needle {
+            if hay[i..(i + needle.len())] == needle[..] {
                 return Ok((i as i32) + 1);
             }
             i += 1;
